@@ -13,6 +13,21 @@ once) and num_samples_reviewed counts every value.
 
 A case dict is literal ({scenario, mode, max_size, seed, base, shards, tail,
 fold}); replay re-executes it exactly (the sampler's seed is part of it).
+
+reservoir_unequal - FixedSizeSample (third audit round): samplers of DIFFERENT
+max_size are merged, in both directions (large receiver <- small operand, small
+receiver <- large operand; upstream tests only the latter), at every fill level
+(fresh, partly filled, exactly full, having reviewed 2-20x their capacity), 2-3
+states per case, many sampler seeds. Per merge step the oracle is: the merge
+succeeds with size = min(receiver.max_size, samples held by the two), members
+from the union of the two reservoirs (each held sample at most once), reviewed
+counts added, operand unchanged; OR the merge rejects the operand and leaves the
+receiver as it was (counted, never a violation: e.g. unequal sampler seeds are
+refused by design). A raise that leaves the receiver changed is the violation;
+so is any raise when one side is a fresh state (the neutral element).
+Then 1-2 further batches are added to the receiver (size grows to min(max_size,
+held + batch), members from reservoir + batch, reviewed count added).
+Shared by C01 and C11 (`prop` only labels the case).
 """
 
 from __future__ import annotations
@@ -23,18 +38,70 @@ import warnings
 from vlib import agg_adapters as A
 
 N_CASES = {'quick': 192, 'thorough': 6000}
+N_UNEQUAL = {'quick': 384, 'thorough': 12000}
+
+KEY_UNEQUAL = 'fixed-size-sample-merge-small-operand-into-large-receiver'
 
 
-def plan_slice(tier, i, k):
+def plan_slice(tier, i, k, n_many=None, n_unequal=None):
   """Scenario work items of chunk i of k: [[scenario, index], ...]."""
-  return [['reservoir_many', idx] for idx in range(N_CASES[tier]) if idx % k == i]
+  n_many = N_CASES[tier] if n_many is None else n_many
+  n_unequal = N_UNEQUAL[tier] if n_unequal is None else n_unequal
+  return ([['reservoir_many', idx] for idx in range(n_many) if idx % k == i] +
+          [['reservoir_unequal', idx] for idx in range(n_unequal) if idx % k == i])
 
 
 def run_item(ctx, rseed, tier, item):
   name, idx = item
   rng = random.Random(A.stable_int('C01-scenario', rseed, name, idx))
-  case = gen_reservoir_many(rng, tier)
+  if name == 'reservoir_unequal':
+    case = gen_reservoir_unequal(rng, tier, idx)
+    case['prop'] = 'C01'
+  else:
+    case = gen_reservoir_many(rng, tier)
   check(ctx, case)
+
+
+_DIRECTIONS = ('large_receiver', 'small_receiver')
+
+
+def _fill(rng, max_size, level):
+  """Number of samples a state of capacity max_size has reviewed."""
+  if level == 'fresh':
+    return 0
+  if level == 'partial':
+    return rng.randint(1, max_size)      # max_size itself = exactly full
+  if level == 'full':
+    return max_size
+  return rng.randint(max_size + 1, 20 * max_size)   # 'over': samples were replaced
+
+
+def gen_reservoir_unequal(rng, tier, idx=0, modes=('obj', 'aggfn')):
+  """Two or three samplers of pairwise different capacity; states[0] receives.
+
+  The direction alternates with the case index in runs of 64 (chunk i of k = 32 /
+  64 executes the indices i, i + k, i + 2k, ...), so that every chunk sees both."""
+  del tier
+  direction = _DIRECTIONS[(idx // 64) % 2]
+  m = rng.choice([2, 2, 2, 3])
+  caps = rng.sample([1, 2, 3, 4, 5, 8, 10, 16, 32], m)
+  caps.sort(reverse=(direction == 'large_receiver'))
+  if m == 3 and rng.random() < 0.5:
+    caps[1], caps[2] = caps[2], caps[1]     # operands in either order
+  levels = ['over', 'over', 'over', 'full', 'partial', 'partial', 'fresh']
+  profile = rng.choice(['both_over', 'both_over', 'any'])
+  states = []
+  for c in caps:
+    level = 'over' if profile == 'both_over' else rng.choice(levels)
+    states.append([c, _fill(rng, c, level)])
+  seeds = [rng.randint(0, 10**6)] * m
+  if rng.random() < 0.04:
+    seeds[-1] += 1                          # refused by design: unequal seeds
+  tail = [rng.choice([1, 3, 20, 200]) for _ in range(rng.randint(1, 2))]
+  return {'scenario': 'reservoir_unequal', 'direction': direction,
+          'mode': rng.choice(modes), 'states': states, 'seeds': seeds,
+          'base': rng.randint(0, 1000), 'tail': tail,
+          'as_range': rng.random() < 0.3}
 
 
 def gen_reservoir_many(rng, tier, modes=('obj', 'aggfn')):
@@ -93,7 +160,161 @@ def _summary(shards):
 def check(ctx, case):
   with warnings.catch_warnings():
     warnings.simplefilter('ignore')
-    _check_reservoir_many(ctx, case)
+    if case.get('scenario') == 'reservoir_unequal':
+      _check_reservoir_unequal(ctx, case)
+    else:
+      _check_reservoir_many(ctx, case)
+
+
+def _multiset_extra(have, allowed):
+  """Elements of `have` (list) beyond the multiset `allowed` (list)."""
+  import collections
+  return sorted((collections.Counter(have) - collections.Counter(allowed)).elements())
+
+
+def _check_reservoir_unequal(ctx, case):
+  prop = case.get('prop', 'C11')
+  states, seeds, mode = case['states'], case['seeds'], case['mode']
+  ads = [A.FixedSizeSampleAd(c, sd) for (c, _), sd in zip(states, seeds)]
+  drvs = [A.Driver(ad, mode) for ad in ads]
+  ctx.case((prop, 'reservoir_unequal', mode, states, seeds, case['base'], case['tail'],
+            case['as_range']), True)
+  ctx.count('family:' + ads[0].family)
+  ctx.count('reservoir_unequal_cases')
+  ctx.count('reservoir_unequal_%s_cases' % case['direction'])
+  recv_cap = states[0][0]
+  if any(c < recv_cap and n > c for c, n in states[1:]) and states[0][1] > recv_cap:
+    ctx.count('reservoir_unequal_audited_class_cases')   # both reviewed more than they hold
+  lit = {'api': mode, 'states[max_size, reviewed]': states, 'seeds': seeds,
+         'receiver': 0, 'then_batches': case['tail'], 'base': case['base']}
+
+  def viol(kind, mech, detail):
+    mech = mech or ('FixedSizeSample:' + kind)
+    ctx.count('viol:' + mech)
+    ctx.violation(kind, case, dict(lit, **detail), mechanism=mech)
+
+  # ---- build the states: disjoint runs of consecutive ints -------------------------
+  hs, p = [], case['base']
+  try:
+    for drv, (_, n) in zip(drvs, states):
+      h = drv.make()
+      if n:
+        data = range(p, p + n)
+        drv.feed(h, data if case['as_range'] else list(data))
+      p += n
+      hs.append(h)
+  except Exception as e:  # pylint: disable=broad-exception-caught
+    ctx.inconclusive_case('building a state raised: ' + repr(A.exc_info(e)), case)
+    return
+
+  def obs(i):
+    return drvs[i].observe(hs[i])
+
+  recv = obs(0)
+  if recv[0] != 'ok':
+    ctx.inconclusive_case('result() of a fed sampler raised: ' + repr(recv), case)
+    return
+  for j in range(1, len(hs)):
+    before, op_before = recv, obs(j)
+    if op_before[0] != 'ok':
+      ctx.inconclusive_case('result() of a fed sampler raised: ' + repr(op_before), case)
+      return
+    op_cap, op_n = states[j]
+    # input class of the third audit: the operand has the smaller capacity and
+    # holds fewer samples than it reviewed
+    small_into_large = op_cap < recv_cap and op_n > op_cap
+    where = {'step': f'states[0].merge(states[{j}])',
+             'receiver_before': {'max_size': recv_cap,
+                                 'held': len(before[1]['reservoir']),
+                                 'reviewed': before[1]['reviewed']},
+             'operand': {'max_size': op_cap, 'held': len(op_before[1]['reservoir']),
+                         'reviewed': op_before[1]['reviewed']}}
+    ctx.count('reservoir_unequal_merge_checks')
+    try:
+      drvs[0].merge(hs[0], [hs[j]])
+    except Exception as e:  # pylint: disable=broad-exception-caught
+      after = obs(0)
+      d = A.compare_obs(ads[0], after, before)
+      if d or A.compare_obs(ads[j], obs(j), op_before):
+        viol('failed_merge_changes_receiver', KEY_UNEQUAL if small_into_large else None,
+             dict(where, exception=list(A.exc_info(e)),
+                  want='merged, or the operand rejected with the receiver unchanged',
+                  receiver_after=({'held': len(after[1]['reservoir']),
+                                   'reviewed': after[1]['reviewed']}
+                                  if after[0] == 'ok' else repr(after)),
+                  diffs=A.fmt_diffs(d)))
+        return   # the receiver is no longer a valid state
+      fresh = ('fresh_left' if before[1]['reviewed'] == 0 else
+               'fresh_right' if op_before[1]['reviewed'] == 0 else None)
+      if fresh and seeds[0] == seeds[j]:
+        # "a freshly created (empty) state is a neutral element on either side"
+        # (C11) / an empty shard (C01): this merge has a defined outcome
+        viol(fresh + '_merge_raises', KEY_UNEQUAL if small_into_large else None,
+             dict(where, exception=list(A.exc_info(e)),
+                  want='what the non-empty side reports'))
+        continue
+      # rejected before anything was touched: acceptable (e.g. unequal seeds)
+      ctx.count('reservoir_unequal_clean_refusals')
+      ctx.observe('reservoir_unequal_refusal', repr(A.exc_info(e))[:160])
+      continue
+    ctx.count('reservoir_checks')
+    after = obs(0)
+    diffs = []
+    if after[0] != 'ok':
+      diffs.append(('<outcome>', after[:2], 'returns'))
+    else:
+      held = before[1]['reservoir'] + op_before[1]['reservoir']
+      want = min(recv_cap, len(held))
+      if len(after[1]['reservoir']) != want:
+        diffs.append(('.reservoir.len', len(after[1]['reservoir']), want))
+      extra = _multiset_extra(after[1]['reservoir'], held)
+      if extra:
+        diffs.append(('.reservoir.not_in_either_reservoir', extra[:12], []))
+      if after[1]['reviewed'] != before[1]['reviewed'] + op_before[1]['reviewed']:
+        diffs.append(('.reviewed', after[1]['reviewed'],
+                      before[1]['reviewed'] + op_before[1]['reviewed']))
+    if diffs:
+      viol('reservoir_after_unequal_merge', None, dict(where, diffs=A.fmt_diffs(diffs)))
+      return
+    ctx.count('operand_checks')
+    d = A.compare_obs(ads[j], obs(j), op_before)
+    if d:
+      viol('operand_changed_by_merge', ads[j].mechanism('operand_changed_by_merge'),
+           dict(where, diffs=A.fmt_diffs(d)))
+    recv = after
+
+  # ---- the receiver is still a working sampler ----------------------------------------
+  ctx.count('reservoir_add_after_merge_checks')
+  for b in case['tail']:
+    batch = list(range(p, p + b))
+    p += b
+    try:
+      drvs[0].feed(hs[0], batch)
+    except Exception as e:  # pylint: disable=broad-exception-caught
+      viol('add_after_merge_raises', None,
+           {'want': 'add() on the merged sampler works', 'batch': len(batch),
+            'receiver_before_add': {'held': len(recv[1]['reservoir']),
+                                    'reviewed': recv[1]['reviewed']},
+            'exception': list(A.exc_info(e))})
+      return
+    after = obs(0)
+    ctx.count('reservoir_checks')
+    diffs = []
+    if after[0] != 'ok':
+      diffs.append(('<outcome>', after[:2], 'returns'))
+    else:
+      want = min(recv_cap, len(recv[1]['reservoir']) + b)
+      if len(after[1]['reservoir']) != want:
+        diffs.append(('.reservoir.len', len(after[1]['reservoir']), want))
+      extra = _multiset_extra(after[1]['reservoir'], recv[1]['reservoir'] + batch)
+      if extra:
+        diffs.append(('.reservoir.not_in_reservoir_or_batch', extra[:12], []))
+      if after[1]['reviewed'] != recv[1]['reviewed'] + b:
+        diffs.append(('.reviewed', after[1]['reviewed'], recv[1]['reviewed'] + b))
+    if diffs:
+      viol('reservoir_after_merge_then_add', None, {'batch': b, 'diffs': A.fmt_diffs(diffs)})
+      return
+    recv = after
 
 
 def _check_reservoir_many(ctx, case):
